@@ -206,7 +206,12 @@ fn frag_answer(out: &mut Out, what: &str, s: &str, start: usize, max: usize, raw
             let raw = &s[start + raw_from..res.pos - raw_to_back];
             if unescape_all(raw) != res.str { out.stats.count("unescape_mismatch"); }
             if res.lines > 0 { out.stats.count(&format!("{}_lines_gt0", what)); }
-            if raw.contains('\n') && res.lines == 0 { out.stats.count(&format!("{}_newline_uncounted", what)); }
+            // what `reference.rs` relies on (must stay 0): `lines` is the number of line feeds consumed;
+            // a destination contains none; a bare destination contains no byte <= 0x20 and no 0x7F
+            if raw.matches('\n').count() != res.lines { out.stats.count("LINES_NE_LF_COUNT"); }
+            if what == "dest" && raw.contains('\n') { out.stats.count("DEST_RAW_HAS_LF"); }
+            if what == "dest" && raw_from == 0 && raw.bytes().any(|b| b <= 0x20 || b == 0x7f) { out.stats.count("DEST_BARE_RAW_HAS_BLANK_OR_CTRL"); }
+            if raw.contains("\\\n") { out.stats.count(&format!("{}_escaped_lf_inside", what)); }
             if raw.bytes().any(|b| b <= 0x20 || b == 0x7f) { out.stats.count(&format!("{}_raw_has_blank_or_ctrl", what)); }
             out.stats.count(&format!("{}_some", what));
             format!("{}:{}:{}", res.pos, res.lines, hexs(raw))
@@ -255,6 +260,20 @@ pub fn run(n: usize, rng: &mut Rng, out: &mut Out) {
         let src = format!("[a]{}", tail);
         let ans = run_inline(&src, src.len());
         out.emit(&format!("link inline {} 3 {}", hexs(&src), src.len()), &ans, true);
+    }
+
+    // the cases repaired in commit 5a0c4fb (escaped line endings / blanks)
+    for d in ["b\\\tc)", "b\\ c)", "b\\\nc)", "b\\\x7fc", "b\\)c)", "<b\\\nc>", "<b\\>c>", "<b\\", "b\\"] {
+        let r = guarded(|| parse_link_destination(d, 0, d.len()));
+        let angle = d.starts_with('<');
+        let (from, back) = if angle { (1, 1) } else { (0, 0) };
+        let ans = frag_answer(out, "dest", d, 0, d.len(), from, back, r);
+        out.emit(&format!("link dest {} 0 {}", hexs(d), d.len()), &ans, true);
+    }
+    for t in ["\"a\\\nb\"", "\"a\nb\\\nc\\\n\"", "'\\\n'", "(a\\\n)", "\"a\\", "\"\\\n"] {
+        let r = guarded(|| parse_link_title(t, 0, t.len()));
+        let ans = frag_answer(out, "title", t, 0, t.len(), 1, 1, r);
+        out.emit(&format!("link title {} 0 {}", hexs(t), t.len()), &ans, true);
     }
 
     for i in 0..n {
